@@ -543,13 +543,67 @@ func realCounted(r *evid.Run, dir string, cs int64) {
 	r.Case(fmt.Sprint("counted", cs), true)
 }
 
+// directOpenNewer: the services' own Open functions (used by callers that do not
+// go through wallet.Open) must refuse a namespace recorded at a version above
+// the latest they understand, and leave it untouched.
+func directOpenNewer(r *evid.Run, dir string, cs int64) {
+	rg := rand.New(rand.NewSource(cs))
+	params := &chaincfg.RegressionNetParams
+	path := filepath.Join(dir, fmt.Sprintf("newer-%d-%d.db", os.Getpid(), cs))
+	db, err := walletdb.Create("bdb", path, true, 10*time.Second, false)
+	if err != nil {
+		r.Inconclusive(err.Error())
+		return
+	}
+	defer func() { db.Close(); os.Remove(path) }()
+	seed := make([]byte, 32)
+	rg.Read(seed)
+	root, _ := hdkeychain.NewMaster(seed, params)
+	if err := wallet.Create(db, []byte("pub"), []byte("priv"), root, params, time.Unix(1600000000, 0)); err != nil {
+		r.Violation("harness:create", err.Error(), "newer", cs, nil)
+		return
+	}
+	bump := byte(1 + rg.Intn(4))
+	walletdb.Update(db, func(tx walletdb.ReadWriteTx) error {
+		tx.ReadWriteBucket([]byte("wtxmgr")).Put([]byte("vers"), []byte{0, 0, 0, 2 + bump})
+		tx.ReadWriteBucket([]byte("waddrmgr")).NestedReadWriteBucket([]byte("main")).Put([]byte("mgrver"), []byte{byte(waddrmgr.LatestMgrVersion) + bump, 0, 0, 0})
+		return nil
+	})
+	tops := [][]byte{[]byte("wtxmgr"), []byte("waddrmgr")}
+	before := dumpDB(db, tops...)
+	var txErr, addrErr error
+	walletdb.Update(db, func(tx walletdb.ReadWriteTx) error {
+		_, txErr = wtxmgr.Open(tx.ReadWriteBucket([]byte("wtxmgr")), params)
+		var m *waddrmgr.Manager
+		m, addrErr = waddrmgr.Open(tx.ReadWriteBucket([]byte("waddrmgr")), []byte("pub"), params)
+		if m != nil {
+			m.Close()
+		}
+		return nil
+	})
+	if txErr == nil {
+		r.Violation("c19:newer-database-not-refused:wtxmgr.Open", fmt.Sprintf("wtxmgr.Open accepted a store recorded at version %d (latest understood: 2)", 2+bump), "newer", cs, nil)
+		return
+	}
+	if addrErr == nil {
+		r.Violation("c19:newer-database-not-refused:waddrmgr.Open", fmt.Sprintf("waddrmgr.Open accepted a manager recorded at version %d (latest understood: %d)", int(waddrmgr.LatestMgrVersion)+int(bump), waddrmgr.LatestMgrVersion), "newer", cs, nil)
+		return
+	}
+	if after := dumpDB(db, tops...); after != before {
+		r.Violation("c19:newer-database-modified", "the services' Open functions refused the newer namespaces but modified them", "newer", cs, nil)
+		return
+	}
+	r.Hit("direct-opens-of-newer-namespaces-refused", 2)
+	r.Case(fmt.Sprint("newer", cs), true)
+}
+
 func main() {
 	// fast scrypt for wallet.Create
 	waddrmgr.SetSecretKeyGen(func(p *[]byte, _ *waddrmgr.ScryptOptions) (*snacl.SecretKey, error) {
 		return snacl.NewSecretKey(p, 16, 8, 1)
 	})
 	r := evid.New(P, "fault_enumeration")
-	r.Rule("(a) version tables of 1..12 distinct numbers from 1..16 in random DECLARED order, some with nil migrations, table handed out as the same slice or as a fresh copy per call; stored version below / at / above the latest; for each table a failure is injected at EVERY position of the list of migrations that must run (plus the no-failure run); a recording migration.Manager over a real bdb namespace, driven inside one walletdb.Update as the wallet does; in a third of the tables each an up-to-date service is listed before it and/or a service with one pending migration after it in the SAME Upgrade call (the up-to-date one must stay untouched, the later one must be upgraded iff the table under test did not fail). Oracle: invoked numbers = sorted pending non-nil ones up to the failing one, each once; error iff failure or stored > latest (ErrReversion); on error the namespace dump equals the one before; on success the recorded version is the latest and SetVersion was called exactly once. (b) a real wallet database whose wtxmgr version is wound back to 1 (and waddrmgr to 7) is opened through wallet.OpenWithRetry with the k-th database write failing, for every k: each failed attempt must return an error and leave both namespaces byte-identical; the fault-free attempt must end at the latest versions with a usable store. (c) the real managers' own tables (wtxmgr, waddrmgr) are driven through migration.Upgrade with an invocation-counting wrapper, repeatedly in one process: a failing attempt, the retry, an up-to-date store; each pending migration must be invoked exactly once per attempt, ascending. Non-trivial = table with at least one migration to run; distinct = distinct (table, stored, failure position).")
+	r.Rule("(a) version tables of 1..12 distinct numbers from 1..16 in random DECLARED order, some with nil migrations, table handed out as the same slice or as a fresh copy per call; stored version below / at / above the latest; for each table a failure is injected at EVERY position of the list of migrations that must run (plus the no-failure run); a recording migration.Manager over a real bdb namespace, driven inside one walletdb.Update as the wallet does; in a third of the tables each an up-to-date service is listed before it and/or a service with one pending migration after it in the SAME Upgrade call (the up-to-date one must stay untouched, the later one must be upgraded iff the table under test did not fail). Oracle: invoked numbers = sorted pending non-nil ones up to the failing one, each once; error iff failure or stored > latest (ErrReversion); on error the namespace dump equals the one before; on success the recorded version is the latest and SetVersion was called exactly once. (b) a real wallet database whose wtxmgr version is wound back to 1 (and waddrmgr to 7) is opened through wallet.OpenWithRetry with the k-th database write failing, for every k: each failed attempt must return an error and leave both namespaces byte-identical; the fault-free attempt must end at the latest versions with a usable store. (c) the real managers' own tables (wtxmgr, waddrmgr) are driven through migration.Upgrade with an invocation-counting wrapper, repeatedly in one process: a failing attempt, the retry, an up-to-date store; each pending migration must be invoked exactly once per attempt, ascending. (d) wtxmgr.Open and waddrmgr.Open called directly on namespaces recorded 1..4 versions above the latest understood must refuse them and leave them untouched. Non-trivial = table with at least one migration to run; distinct = distinct (table, stored, failure position).")
 	r.Trusted("walletdb/bdb transaction rollback (C11)")
 	dir, _ := os.MkdirTemp("", "c19")
 	defer os.RemoveAll(dir)
@@ -568,6 +622,8 @@ func main() {
 	})
 	r.Parallel("real", r.N(4, 160), evid.Workers(), func(i int, cs int64) { realCase(r, dir, i, cs) })
 	r.Require("real-newer-database-refused-unmodified", 1)
+	r.Parallel("newer", r.N(3, 40), evid.Workers(), func(i int, cs int64) { directOpenNewer(r, dir, cs) })
+	r.Require("direct-opens-of-newer-namespaces-refused", 4)
 	r.Parallel("counted", r.N(4, 80), evid.Workers(), func(i int, cs int64) { realCounted(r, dir, cs) })
 	r.Require("real-table-upgrade-attempts-counted", 12)
 	r.Require("upgrade-runs", 1000)
